@@ -56,6 +56,10 @@ def simEvent (cap : Nat) (s : Sim) (e : String) : Sim × Option String :=
       ({ s with client := c', stepped := true, queued := 0 },
        some s!"ok:r{if reset then 1 else 0}:{st}:{c'.refresh}:{showUpd upd}:good")
   else if e = "n" then ({ s with queued := s.queued + 1 }, none)
+  else if e.startsWith "t" then
+    match (e.drop 1).toString.toNat? with
+    | some n => ({ s with src := { s.src with refresh := n } }, none)
+    | none => ({ s with failed := true }, some "bad-op")
   else if e = "ns" then ({ s with src := s.src.newSession s.newSession, newSession := s.newSession + 1 }, none)
   else if e.startsWith "u" then
     let keep := (e.drop 1).take 1 == "1"
